@@ -155,6 +155,19 @@ func runsFor(prop, tier string) []run {
 			rs = append(rs, run{a.name, eb.Cfg{RF: a.rf, N: a.n, Alphabet: alpha, Oracles: []string{"c09"}, Drain: true, MaxRegs: 5, MaxRestarts: 1, MaxFaults: 2, Revs: a.revs, States: a.states}, d, minutes(pickf(0.3, 2))})
 		}
 		return rs
+	case "C07":
+		or := []string{"c02", "c04", "c07", "c10", "c18"}
+		withData := append(append([]string{}, rw2...), "W:0", "W:0")
+		mk := func(init, alpha []string, w, restarts, reads, adds int) eb.Cfg {
+			return eb.Cfg{RF: 3, N: 3, Alphabet: alpha, Oracles: or, Drain: true, Real: true, MaxWrites: w, MaxReads: reads, MaxAdds: adds, MaxRestarts: restarts, MaxFaults: 2, InitOps: init}
+		}
+		// the third replica was part of the volume, fell behind (it misses the last write and an add-time snapshot)
+		diverged := append(append([]string{}, rw3...), "W:0", "MonFail:2", "Restart:2", "W:0")
+		return []run{
+			{"rebuild-empty-joiner-writes-in-every-gap", mk(withData, []string{"RB", "Step", "W0", "R"}, 5, 0, 1, 3), pick(28, 30), minutes(pickf(1.5, 8))},
+			{"rebuild-diverged-joiner-writes-in-every-gap", mk(diverged, []string{"RB", "Step", "W0"}, 4, 0, 0, 5), pick(28, 32), minutes(pickf(1.2, 8))},
+			{"rebuild-killed-at-every-gate-then-retried", mk(withData, []string{"RB", "Step", "Kill", "MonFail", "W0"}, 3, 1, 0, 4), pick(30, 60), minutes(pickf(1.5, 10))},
+		}
 	case "C13":
 		alpha := []string{"W0", "Snap", "Break", "Heal", "Remove", "MonFail", "MonWake", "Add", "Sync", "Verify", "ERR", "Restart"}
 		or := []string{"c13", "c18"}
